@@ -30,6 +30,11 @@ PRELUDE = ("From Coq Require Import ZArith List Bool.\nFrom Darr Require Import 
            "Import ListNotations.\nOpen Scope Z_scope.\n")
 
 
+def np_kind(nt):
+    import numpy as np
+    return np.dtype(nt).kind
+
+
 def ix_term(x):
     if isinstance(x, int):
         return f"(IInt {cz(x)})"
@@ -70,7 +75,7 @@ def gen_access(ctx):
                    ['b', False, 'np'], ['rng', [0, 2]], ['u8a', [1, 0]], ['t', ['npi', 'int32', 0], ['s', None, None, None]],
                    ['t', 0, 0, 0, 0, 0], ['t', ['s', None, None, None], 0], ['t', 'E', -1], ['t', 'N', ['s', None, None, -1]],
                    ['t', ['ia', [0, 1]], ['ia', [1, 0]]]]
-    vals = [dict(kind='scalar', value=7), dict(kind='scalar', value=2.5), dict(kind='list', value=[1, 2]),
+    vals = [dict(kind='scalar', value=7), dict(kind='scalar', value=2.5), dict(kind='scalar', value=-0.0), dict(kind='list', value=[1, 2]),
             dict(kind='npscalar', dtype='<i2', value=3), dict(kind='list', value=[[1], [2], [3]]), dict(kind='str')]
     for sh in shapes:
         for nt in (NUMTYPES if not ctx.quick else r.sample(NUMTYPES, 4)):
@@ -83,6 +88,13 @@ def gen_access(ctx):
                         dict(k='get', index=-1), dict(k='shrink', n=3), dict(k='get', index=full),
                         dict(k='set', index=-1, value=dict(kind='scalar', value=9)), dict(k='get', index=full),
                         dict(k='shrink', n=1), dict(k='get', index=full), dict(k='exit'), dict(k='get', index=full)]
+            if 0 not in sh and np_kind(nt) in 'fc':
+                # element 0 holds +0.0: writing -0.0 over it (and back) must reach the file although -0.0 == 0.0
+                z = (0,) * len(sh)
+                acc += [dict(k='set', index=['t'] + [0] * len(sh), value=dict(kind='scalar', value=-0.0)),
+                        dict(k='set', index=0, value=dict(kind='list', value=[-0.0] * int(sh[-1]) if len(sh) == 2 else -0.0))
+                        if len(sh) <= 2 else dict(k='get', index=0),
+                        dict(k='set', index=['t'] + [0] * len(sh), value=dict(kind='scalar', value=0.0))]
             if 0 not in sh and sh[0] >= 3:
                 # a read-only handle opened for writing by the context: the context's mode governs,
                 # also after the length changed inside it
